@@ -65,3 +65,23 @@ pub fn small_alphabet(pool: &'static [char], k: usize, max_len: usize) -> BoxedS
         .prop_map(move |(syms, sel)| sel.iter().map(|s| pool[syms[idx(*s, syms.len())]]).collect::<String>())
         .boxed()
 }
+
+/// numbers defects like to key on: 2^k and 10^k with their neighbours, the numbers the library's
+/// own source mentions with theirs, bounded by `max`
+pub fn interesting_u64(max: u64) -> BoxedStrategy<u64> {
+    let mut v: Vec<u64> = crate::engine::dict::ints_in(0, max);
+    for k in [7u32, 8, 10, 12, 15, 16, 20, 24, 31, 32, 40, 48, 53, 62, 63] {
+        let p = 1u64 << k;
+        v.extend([p - 1, p, p + 1]);
+    }
+    v.push(u64::MAX);
+    let mut p = 10u64;
+    for _ in 1..19 {
+        v.extend([p - 1, p, p + 1]);
+        p *= 10;
+    }
+    v.retain(|n| *n <= max);
+    v.sort();
+    v.dedup();
+    prop::sample::select(v).boxed()
+}
